@@ -40,7 +40,20 @@ def regen_classification(status):
     _one('js_classification', 'TallyVerif/Gen/ClassJs.lean', 'TallyVerif.Gen.ClassJs', js, status)
 
 
+def regen_specificity(status):
+    from .translate import specificity_tables
+
+    def produce():
+        src = common.read(os.path.join(common.SRC, 'merchant_engine.py'))
+        text, meta = specificity_tables.translate(src)
+        meta['input_sha'] = common.sha(text)
+        return text, meta
+
+    _one('specificity_tables', 'TallyVerif/Gen/Specificity.lean', 'TallyVerif.Gen.Specificity', produce, status)
+
+
 def regen_all():
     status = {}
     regen_classification(status)
+    regen_specificity(status)
     return status
